@@ -349,11 +349,16 @@ RULE = ("(a) random schedule CSVs (1-14 rows, 0-3 vehicle columns, repeated and 
 def run(tier):
     def extra(rep, tier_, sd):
         corr.correspond(GEN, 40 if tier_ == "quick" else 400, sd, rep, check_model=False, label="generate_schedule end to end (implementation, sampled)")
-    return corr.standard_run("C13", tier, [READER], 400, 5000, ["Python datetime/csv as glue: row times and the '9am the day(s) before' rule are computed by the harness"], RULE, extra=extra)
+    # generate_schedule reads fixed load / generation through EnergyValuesList.get_events and the event machinery: that unit too
+    import c07
+    return corr.standard_run("C13", tier, [READER, c07.UNIT], {"schedcsv": 400, "events": 200}, {"schedcsv": 5000, "events": 2000}, ["Python datetime/csv as glue: row times and the '9am the day(s) before' rule are computed by the harness"], RULE, extra=extra)
 
 
 def replay(payload):
     inp = payload["input"]
+    if inp.get("unit") in ("events", "weekly"):
+        import c07
+        return c07.replay(payload)
     unit = GEN if inp.get("unit") == "gen_schedule" else READER
     v = unit.check_property(inp["case"], unit.run_impl(inp["case"]))
     for cls, what in v:
